@@ -25,6 +25,30 @@ static inline void *v_memcpy_same_ok(void *d, const void *s, size_t n) {
 	return (memcpy(d, s, n));
 }
 
+#ifndef REPLAY
+/* CBMC-only memmem (man-page contract, same as lib/libc_models.h) written so that symbolic execution does not invent
+ * matches: the "whole needle matched" test sits inside the comparison loop, before the paths of a symbolic byte
+ * comparison are merged.  With the generic model (`while (j < nn && h[i+j] == n[j]) j++; if (j == nn) return`) every
+ * symbolic haystack byte leaves j = ite(c, 1, 0) behind, `j == nn` is then undecided for symex, the result pointer
+ * becomes an if-then-else over all positions and the callers' nested loops explode (measured on http_hdr_val_get_count:
+ * 157 k vs 1.2 k symex steps on the same 33-byte block).  Natively the real libc memmem is used. */
+static inline void *v_memmem(const void *h, size_t hn, const void *nd, size_t nn) {
+	const unsigned char *hp = (const unsigned char *)h, *np = (const unsigned char *)nd;
+	if (nn == 0) return ((void *)h);
+	if (nn > hn) return ((void *)0);
+	for (size_t i = 0; i + nn <= hn; i++) {
+		for (size_t j = 0;; j++) {
+			if (j == nn) return ((void *)(hp + i));
+			if (hp[i + j] != np[j]) break;
+		}
+	}
+	return ((void *)0);
+}
+#ifndef LCB_FALLBACK
+#define memmem v_memmem
+#endif
+#endif
+
 #ifdef LCB_FALLBACK
 #undef HAVE_MEMMEM
 #undef HAVE_MEMRCHR
